@@ -11,7 +11,7 @@ from ..model import Class, Func, own_nodes, src
 from ..pathsem import function_paths
 from ..typeinf import classes_of, elem
 from .c08 import forward_shape, op_paths
-from .common import chain, single_env as _single_env, derived_names, element_placements, loop_body_paths, mentions, order_of, possible_classes
+from .common import chain, single_env as _single_env, derived_names, element_placements, loop_body_paths, mentions, names_in, order_of, possible_classes
 
 PROPERTY = "C19"
 LEVEL = "other"
@@ -216,6 +216,11 @@ def _stage_call(e: ast.AST, up: Func, env: Optional[Dict[str, ast.AST]] = None) 
         return None
     side = "src" if "src" in lits[0] else "dst"
     if isinstance(e.func, ast.Attribute) and isinstance(e.func.value, ast.Name) and up.cls is not None and up.cls.lookup_method(e.func.attr) is not None:
+        m_ = up.cls.lookup_method(e.func.attr)
+        if m_.kind == "staticmethod":
+            # `self._split(ace_o, "dstport")`: the entry that is split is the argument, not the receiver
+            names = [a.id for a in e.args if isinstance(a, ast.Name)]
+            return (names[0], side) if len(names) == 1 else None
         return e.func.value.id, side
     if isinstance(e.func, ast.Name):
         names = [a.id for a in e.args if isinstance(a, ast.Name)]
@@ -510,6 +515,20 @@ def splice_rule(ctx: Ctx, rep: Report, q: str, rid: str = "R19.4") -> None:  # n
                 acc_names.add(src(call.func.value))
         label = " & ".join(f"{snippet(t, 30)}={'T' if tr else 'F'}" for t, tr in atoms) or "unconditional"
         rep.instance()
+        # the split result is put back as the entries it consists of: `extend(o.data() for o in aces)` hands the setter
+        # dictionaries, which it rebuilds under the CONTAINER's switches (port_nr, protocol_nr) - the pieces of an entry
+        # written with numbers come back with names
+        conv = None
+        for k, call in places:
+            if k == "replace" and isinstance(call, ast.Call) and call.args:
+                a0 = call.args[0]
+                while isinstance(a0, ast.Call) and isinstance(a0.func, ast.Name) and a0.func.id in ("list", "tuple", "iter") and len(a0.args) == 1:
+                    a0 = a0.args[0]
+                if isinstance(a0, (ast.GeneratorExp, ast.ListComp)) and len(a0.generators) == 1 and isinstance(a0.generators[0].target, ast.Name) and src(a0.elt) != a0.generators[0].target.id and names_in(a0.generators[0].iter) & (der | {var}):
+                    conv = call
+        if conv is not None:
+            rep.violation(q, snippet(conv, 60), "the pieces of a split entry are put back converted (exported, re-built) instead of as the entries the split returned: what the container re-creates from them carries the container's switches, not the entry's own (`eq 80` written with port_nr comes back as `eq www`)", where(f, conv), inp="ace.port_nr = True inside a default group; group.ungroup_ports()")
+            continue
         if len(places) == 1:
             kind = places[0][0]
             if kind == "replace":
@@ -660,6 +679,15 @@ def run(ctx: Ctx, rep: Report, tier: str) -> None:
     sub162 = Report("C19")
     r16_2(ctx, sub162)
     rep.absorb(sub162, "R19.12")
+    # R19.13 "keep every other field": the blocks the ACL rebuilds after the split receive the ACL's settings (C16
+    # R16.24), and the members of a referenced address group are rebuilt from the data they exported (C16 R16.29) - the
+    # split copies every entry, also the ones it does not split
+    from .c16 import blocks_get_acl_settings, member_dicts_stamped_like_members
+
+    sub163 = Report("C19")
+    blocks_get_acl_settings(ctx, sub163)
+    member_dicts_stamped_like_members(ctx, sub163)
+    rep.absorb(sub163, "R19.13")
     r19_2(ctx, rep)
     r19_3(ctx, rep)
     splice_rule(ctx, rep, "AceGroup.ungroup_ports")
